@@ -19,7 +19,7 @@ CORPUS = os.path.join(common.ROOT, "corpus", "C16")
 def known_class(p, o):
     """the Known_* class of an occurrence, mirrored by the predicates of props/C16.v over the same data"""
     dead = {d.name for d in p.defs if not d.assembled and d.kind != "param"}
-    if o.assembled and o.role != "def" and any(seg in dead for seg in (o.path or [o.text])):
+    if any(seg in dead for seg in (o.path or [o.text])):
         return "Known_greedy_untaken_definition"
     return None
 
@@ -183,7 +183,7 @@ def run(chk):
     probe = Proc([common.build_probe()])
     mos = common.build_mos()
     thorough = chk.tier == "thorough"
-    n = 400 if thorough else 60
+    n = 1000 if thorough else 100
     workdir = os.path.join(common.CACHE, "work")
     os.makedirs(workdir, exist_ok=True)
     stats = {"programs": 0, "discarded": 0, "occurrences": 0, "decided": 0, "dotted_segments": 0, "multi_file": 0}
